@@ -55,9 +55,14 @@ def _has_array_or_map(t) -> bool:
     return any(isinstance(x, (A, M)) for x in walk_types(t))
 
 
-def rejection_class(errors: list, new=None) -> str:
-    """where a rejected compatible/partial edit landed, from the tool's own message"""
+def rejection_class(errors: list, new=None, info=None) -> str:
+    """where a rejected compatible/partial edit landed: structural facts about the edit first, then the tool's own message"""
     t = " ".join(errors)
+    if info and info.get("container"):
+        if info["name"] in ("T->T?", "T?->T"):
+            return "optional-of-container"
+        if info["name"] == "introduce-alias":
+            return "alias-of-container-as-item"
     ma = re.search(r"this change to '(\w+)' is not backward compatible: base definitions are incompatible", t)
     if ma and new is not None:
         d = new.find(ma.group(1))
@@ -194,7 +199,7 @@ def run(ctx):
                 ctx.violation("no-version-label:%s" % name, "%s: rejected but no error carries the version label: %s" % (what, v["errors"][:2]), case); ok = False
         elif expect in (evo.COMPATIBLE, evo.PARTIAL):
             if v["rc"] != 0:
-                ctx.violation("rejected:%s:%s" % (expect, rejection_class(v["errors"], new)), "%s: documented %s change rejected: %s" % (what, expect, v["errors"][:2]), case); ok = False
+                ctx.violation("rejected:%s:%s" % (expect, rejection_class(v["errors"], new, info)), "%s: documented %s change rejected: %s" % (what, expect, v["errors"][:2]), case); ok = False
             elif expect == evo.PARTIAL and not v["warnings"]:
                 ctx.violation("no-warning:%s" % name, "%s: partially compatible change accepted without a warning" % what, case); ok = False
         ctx.case((kind, bi, getattr(edit, "__name__", ""), rep))
